@@ -59,6 +59,10 @@ static const cfg_t cfgs[] = {
       { "Iaa0", "Iaan" } },
     { "aba n1 both sides: aaa10 | aaa100", 0, { 1, 64, 0, 4, 0, 2 }, 3, 0,
       { "aaa10", "aaa100" } },
+    /* both pools are destroyed while holding 2 of 3 headers: the second
+     * merge completes a bucket and leaves a remainder in the partial bucket */
+    { "partial remainder n3: aDIaD | aDIa", 0, { 3, 64, 0, 4, 8, 2 }, 0, 0,
+      { "aDIaD", "aDIa" } },
 };
 
 static px_t X;
